@@ -177,8 +177,8 @@ impl Check for C07 {
     }
     fn budget(&self, tier: Tier) -> u64 {
         match tier {
-            Tier::Quick => 4000,
-            Tier::Thorough => 150_000,
+            Tier::Quick => 12_000,
+            Tier::Thorough => 300_000,
         }
     }
     fn run(&self, ch: &mut Chooser, tier: Tier) -> RunOutcome {
